@@ -304,10 +304,6 @@ pub fn run_case(c: &Case, mode: Mode) -> Verdict {
     let (y, v) = c.goal;
     let truth = !c.cfg.quoted_goal && cl.get(&y) == Some(&v);
     let q = if c.cfg.quoted_goal { format!("F.{} == \"{}\"", FIELDS[y], v) } else { format!("F.{} == {}", FIELDS[y], enc_text_f(y, v)) };
-    if int_typed(y) {
-        // a goal on an integer-typed field is the known finding C09-K1; this encoding is about integer *conditions*
-        return Verdict::Undefined;
-    }
     let mut facts = mk_facts(c.init, c.nf);
     let before = facts_map(&facts);
     let kb = c.kb.clone();
